@@ -1,5 +1,6 @@
 import HcipyVerif.Model.Proto
 import HcipyVerif.Model.PhaseOptics
+import HcipyVerif.Model.PassiveOptics
 
 /-!
 Line-protocol front end of the C07 model.
@@ -8,10 +9,24 @@ Line-protocol front end of the C07 model.
 C07 coef <family> fwd|bwd <n|->     -> ok κ          exponent coefficient of the multiplier
 C07 magnify m1 m2                   -> ok w d        weight factor |m1 m2| and squared field divisor
 C07 magnifyold m1 m2                -> ok d | err value   (unrepaired: sqrt of the signed product)
+C07 mask fwd|bwd [E] [t] [w]        -> ok [E'] pin pout  Apodizer / any phase-only element: E·t (E·conj t), total power
+                                                         before / after **with the input weights** (complex lists are flat re,im,…)
+C07 fibre [E] [m] [w]               -> ok [a] pin mnorm [back]   a = Σ conj(E) w m, Σ|E|²w, Σ|m|²w, power of a·m
+C07 knife N M start [mask] [apod] [lyot] [x] -> ok [row']  lyot·crop(ifft(fft(pad(x·apod))·mask)), M ∣ 4 (Gaussian kernels)
 ```
 -/
 namespace HcipyVerif.Driver.C07
-open HcipyVerif.Proto HcipyVerif.PhaseOptics
+open HcipyVerif.Proto HcipyVerif.PhaseOptics HcipyVerif.Passive HcipyVerif.Jones
+
+def cxList? : List Rat → Option (List (Cx Rat))
+  | [] => some []
+  | a :: b :: rest => (cxList? rest).map fun l => ⟨a, b⟩ :: l
+  | _ => none
+
+def cxFn (l : List (Cx Rat)) : Nat → Cx Rat := fun i => l.getD i ⟨0, 0⟩
+def ratFn (l : List Rat) : Nat → Rat := fun i => l.getD i 0
+def flat (f : Nat → Cx Rat) (n : Nat) : List Rat := (List.range n).flatMap fun i => [(f i).re, (f i).im]
+def parseCx? (s : String) : Option (List (Cx Rat)) := (parseRatList? s).bind cxList?
 
 structure St where
   dummy : Unit := ()
@@ -34,6 +49,30 @@ def step (st : St) : List String → St × String
       | some d => (st, "ok " ++ showRat d)
       | none => (st, "err value")
     | _, _ => (st, "bad-op")
+  | ["mask", dir, e, tt, w] =>
+    match parseCx? e, parseCx? tt, parseRatList? w with
+    | some e, some tt, some w =>
+      if e.length ≠ tt.length ∨ e.length ≠ w.length ∨ (dir ≠ "fwd" ∧ dir ≠ "bwd") then (st, "bad-op") else
+      let n := e.length
+      let out := if dir == "fwd" then maskFwd (cxFn tt) (cxFn e) else maskBwd (cxFn tt) (cxFn e)
+      (st, s!"ok {showRatList (flat out n)} {showRat (power (cxFn e) (ratFn w) n)} {showRat (power out (ratFn w) n)}")
+    | _, _, _ => (st, "bad-op")
+  | ["fibre", e, m, w] =>
+    match parseCx? e, parseCx? m, parseRatList? w with
+    | some e, some m, some w =>
+      if e.length ≠ m.length ∨ e.length ≠ w.length then (st, "bad-op") else
+      let n := e.length
+      let a := fibreAmp (cxFn e) (cxFn m) (ratFn w) n
+      (st, s!"ok {showRatList [a.re, a.im]} {showRat (power (cxFn e) (ratFn w) n)} {showRat (power (cxFn m) (ratFn w) n)} {showRat (power (fibreBack a (cxFn m)) (ratFn w) n)}")
+    | _, _, _ => (st, "bad-op")
+  | ["knife", nn, mm, start, mask, apod, lyot, x] =>
+    match parseNat? nn, parseNat? mm, parseNat? start, parseCx? mask, parseCx? apod, parseCx? lyot, parseCx? x with
+    | some n, some m, some s, some mask, some apod, some lyot, some x =>
+      if (m ≠ 1 ∧ m ≠ 2 ∧ m ≠ 4) ∨ s + n > m ∨ mask.length ≠ m ∨ apod.length ≠ n ∨ lyot.length ≠ n ∨ x.length ≠ n then (st, "bad-op") else
+      let xin : Nat → Cx Rat := fun i => cxFn x i * cxFn apod i
+      let row := knifeRow n m s (gaussKerF m) (gaussKerB m) ⟨1 / (m : Rat), 0⟩ (cxFn mask) xin
+      (st, "ok " ++ showRatList (flat (fun j => cxFn lyot j * row j) n))
+    | _, _, _, _, _, _, _ => (st, "bad-op")
   | _ => (st, "bad-op")
 
 end HcipyVerif.Driver.C07
